@@ -218,6 +218,24 @@ impl Monitors {
         self.probe_seq_before = self.probe_seq;
         self.rto_recovery_until_before = self.rto_recovery_until;
         self.c10(&rec, w, &mut v);
+        // C14: the size ceiling of the path search is only ever lowered by the failure of an oversized
+        // segment (a probe that expired, or that the local link refused) - judged on the state before this
+        // step's acknowledgements are applied
+        if let (Some(ob), Some(oa)) = (&rec.obs_before, &rec.obs_after) {
+            if oa.max_ss < ob.max_ss && !self.desync {
+                let strict = self.proven_strict();
+                let oversized_outstanding = self.tx.values().any(|t| !t.acked && t.len > strict);
+                let oversized_now = rec.emitted.iter().any(|e| e.hdr.ptype == 0 && e.payload.len() > strict);
+                if !oversized_outstanding && !oversized_now && rec.rejected.is_empty() {
+                    v.push(f(
+                        "C14",
+                        "mtu-search",
+                        "mtu/ceiling-lowered-without-a-failed-oversized-segment",
+                        format!("the largest segment size the search will try went from {} to {} although no segment larger than the proven size ({}) was outstanding or refused: the connection can no longer settle on the largest size that fits", ob.max_ss, oa.max_ss, strict),
+                    ));
+                }
+            }
+        }
         self.peer_side_updates(&rec, w);
         self.tx_wire(&rec, w, act, &mut v);
         self.rx_wire(&rec, w, act, &mut v);
@@ -1307,7 +1325,10 @@ impl Monitors {
         let sending_state = oa.state == "established" && ob.state == "established";
         if unsent > 0 && rec.d_polls > 0 && sending_state && w.done.is_none() && rec.rejected.is_empty() && !self.fin_from_peer_seen && !matches!(act, Some(Act::TransportPendingOnce)) && oa.rto_retransmissions == 0 && oa.recovery_phase == 0 && !matches!(act, Some(Act::Deliver2(..))) {
             let outstanding: usize = self.tx.values().filter(|t| !t.acked).map(|t| t.len).sum();
-            let next = (oa.mss as usize).min(unsent as usize);
+            // (while the path search is still running the next segment may be cut as a probe of up to the
+            // current ceiling: room for that much is demanded before calling the sender idle)
+            let next_cap = if oa.max_ss > oa.mss { oa.max_ss as usize } else { oa.mss as usize };
+            let next = next_cap.min(unsent as usize);
             let allowed = (oa.cwnd.min(self.peer_last_wnd as usize)).saturating_sub(outstanding);
             let probe_outstanding = self.tx.values().any(|t| !t.acked && t.len > self.proven());
             if !w.cfg.nagle {
